@@ -325,6 +325,13 @@ func (w *world) do(o op) Sx {
 		if !w.okTree(t) || !w.okAlloc(a) || len(w.trees) >= 12 {
 			return skip
 		}
+		if !w.awake(w.trees[t].a) && w.awake(a) && w.trees[t].t.Len() > 0 && os.Getenv("C06_REFUSED_CLONEDEEP") == "" {
+			// CloneDeep of a non-empty tree whose own allocator sleeps into an awake allocator panics
+			// (refused) only after it has taken one node from the destination; that node is lost.
+			// A Go program does not survive the panic, so the sequence is outside the property
+			// (docs/C06.md, "observation"); set C06_REFUSED_CLONEDEEP=1 to run it anyway.
+			return skip
+		}
 		var c *verifapi.RBTree
 		var ids []uint32
 		msg, p := Catch(func() {
@@ -958,24 +965,24 @@ func main() {
 	}
 
 	if cfg.Tier == "quick" {
-		exhaustive(3)
-	} else {
 		exhaustive(4)
+	} else {
+		exhaustive(5)
 	}
 	for shape := 0; shape <= 4; shape++ {
 		for _, rel := range []int{absZero, -1, 0, 1} {
 			for _, disk := range []bool{false, true} {
-				reps := cfg.Count(2, 10)
+				reps := cfg.Count(6, 40)
 				for k := 0; k < reps; k++ {
 					guarded("boundary", func(s *script) { genBoundary(s, shape, rel, disk) })
 				}
 			}
 		}
 	}
-	for k, n := 0, cfg.Count(400, 6000); k < n; k++ {
+	for k, n := 0, cfg.Count(1500, 20000); k < n; k++ {
 		guarded("clone", genClone)
 	}
-	for k, n := 0, cfg.Count(900, 15000); k < n; k++ {
+	for k, n := 0, cfg.Count(3000, 40000); k < n; k++ {
 		guarded("random", genRandom)
 	}
 }
